@@ -61,7 +61,7 @@ PROPS = {
     },
     "C15": {
         "lean": "Props.C15",
-        "domains": [{"name": "resolve"}, {"name": "loadresolve"}, {"name": "resolverun"}],
+        "domains": [{"name": "resolve"}, {"name": "loadresolve"}, {"name": "resolverun"}, {"name": "suggest"}],
         "trusted": ["Go regexp's leftmost-first semantics for `^lit(.*)lit…$` is what Resolve.Glob mirrors; "
                     "sajari/fuzzy ranking is an oracle (only 'a suggestion exists' is checked)"],
         "assumptions": ["names are valid UTF-8; resolution table built in memory through ast.Tasks.Set"],
